@@ -16,16 +16,13 @@ Open Scope Z_scope.
 
 (* ================= ranges: Has, CheckValid, CheckOverlap ================= *)
 
-(* the binary search never runs out of fuel / indexes out of range, for every list *)
-Theorem C36_ranges_has_total : forall k l n, ranges_has k l n <> None.
-Proof. exact ranges_has_total. Qed.
-Print Assumptions C36_ranges_has_total.
-
-(* Has never reports a number that no listed range contains — for every list *)
-Theorem C36_ranges_has_sound : forall k l n,
-  ranges_has k l n = Some true -> exists r, In r l /\ contains k r n.
-Proof. exact ranges_has_sound. Qed.
-Print Assumptions C36_ranges_has_sound.
+(* the binary search never runs out of fuel / indexes out of range, and never reports a number
+   that no listed range contains — for every list, valid or not *)
+Theorem C36_ranges_has_total_sound : forall k l n,
+  ranges_has k l n <> None /\
+  (ranges_has k l n = Some true -> exists r, In r l /\ contains k r n).
+Proof. exact (fun k l n => conj (ranges_has_total k l n) (ranges_has_sound k l n)). Qed.
+Print Assumptions C36_ranges_has_total_sound.
 
 (* Has = membership in the listed ranges, for every list that passes CheckValid
    (sortedness is established by the modelled lazyInit; the binary search needs the
@@ -40,11 +37,6 @@ Example C36_ranges_has_iff_member_nonvacuous :
   ranges_has FieldR [(100, 200); (1, 5); (5, 7)] 6 = Some true /\
   ranges_has FieldR [(100, 200); (1, 5); (5, 7)] 7 = Some false.
 Proof. vm_compute. auto. Qed.
-
-Theorem C36_ranges_has_false_iff : forall k ms l n, check_valid k ms l = CVOk ->
-  (ranges_has k l n = Some false <-> ~ exists r, In r l /\ contains k r n).
-Proof. exact ranges_has_false_iff. Qed.
-Print Assumptions C36_ranges_has_false_iff.
 
 (* without CheckValid the binary search can miss a member: [1,10) and [2,3), number 5 *)
 Theorem C36_ranges_has_needs_valid :
@@ -67,20 +59,18 @@ Theorem C36_check_valid_spec : forall k ms l,
 Proof. exact check_valid_spec. Qed.
 Print Assumptions C36_check_valid_spec.
 
-(* CheckOverlap reports an error iff some range of one list intersects some range of the other,
-   for lists that each pass CheckValid *)
+(* CheckOverlap reports an error iff some range of one list intersects some range of the other
+   (equivalently: the two lists share a number), for lists that each pass CheckValid *)
 Theorem C36_check_overlap_spec : forall msp msq p q,
   check_valid FieldR msp p = CVOk -> check_valid FieldR msq q = CVOk ->
-  (check_overlap p q = true <-> exists rp rq, In rp p /\ In rq q /\ intersects FieldR rp rq = true).
-Proof. exact check_overlap_spec. Qed.
-Print Assumptions C36_check_overlap_spec.
-
-Theorem C36_check_overlap_shared_number : forall msp msq p q,
-  check_valid FieldR msp p = CVOk -> check_valid FieldR msq q = CVOk ->
+  (check_overlap p q = true <-> exists rp rq, In rp p /\ In rq q /\ intersects FieldR rp rq = true) /\
   (check_overlap p q = true <->
    exists rp rq n, In rp p /\ In rq q /\ contains FieldR rp n /\ contains FieldR rq n).
-Proof. exact check_overlap_shared_number. Qed.
-Print Assumptions C36_check_overlap_shared_number.
+Proof.
+  exact (fun msp msq p q Hp Hq =>
+    conj (check_overlap_spec msp msq p q Hp Hq) (check_overlap_shared_number msp msq p q Hp Hq)).
+Qed.
+Print Assumptions C36_check_overlap_spec.
 
 Example C36_check_overlap_nonvacuous :
   check_valid FieldR false [(10, 20); (1, 5)] = CVOk /\ check_valid FieldR false [(5, 10); (19, 30)] = CVOk /\
@@ -102,18 +92,14 @@ Print Assumptions C36_ranges_any_sort.
 
 (* ================= keyed lookups ================= *)
 
-(* what "the first element with that key" means *)
-Theorem C36_first_means_first : forall (A : Type) (p : A -> bool) l i,
-  find_index p l = Some i <->
-  (exists a, nth_error l i = Some a /\ p a = true) /\
-  (forall j b, (j < i)%nat -> nth_error l j = Some b -> p b = false).
-Proof. exact @find_index_Some. Qed.
+(* what "the first element with that key" means, and what nil means *)
+Theorem C36_first_means_first : forall (A : Type) (p : A -> bool) l,
+  (forall i, find_index p l = Some i <->
+     (exists a, nth_error l i = Some a /\ p a = true) /\
+     (forall j b, (j < i)%nat -> nth_error l j = Some b -> p b = false)) /\
+  (find_index p l = None <-> forall a, In a l -> p a = false).
+Proof. exact (fun A p l => conj (fun i => find_index_Some p l i) (find_index_None p l)). Qed.
 Print Assumptions C36_first_means_first.
-
-Theorem C36_none_means_absent : forall (A : Type) (p : A -> bool) l,
-  find_index p l = None <-> forall a, In a l -> p a = false.
-Proof. exact @find_index_None. Qed.
-Print Assumptions C36_none_means_absent.
 
 (* Fields: ByName / ByJSONName / ByTextName / ByNumber return the first element with that key *)
 Theorem C36_lookup_first_wins_fields : forall l,
@@ -175,18 +161,13 @@ Example C36_except_F8_nonvacuous :
   excl_F8_json (firstn 1 F8_witness) = false.
 Proof. vm_compute. auto. Qed.
 
-(* Names (reserved names) and FieldNumbers (RequiredNumbers) *)
-Theorem C36_names_has_iff : forall l s, names_has l s = true <-> In s l.
-Proof. exact names_has_iff. Qed.
-Print Assumptions C36_names_has_iff.
-
-Theorem C36_names_check_valid_nodup : forall l, names_check_dup l = false <-> NoDup l.
-Proof. exact names_check_dup_false. Qed.
-Print Assumptions C36_names_check_valid_nodup.
-
-Theorem C36_numbers_has_iff : forall l n, numbers_has l n = true <-> In n l.
-Proof. exact numbers_has_iff. Qed.
-Print Assumptions C36_numbers_has_iff.
+(* Names (reserved names: Has, CheckValid) and FieldNumbers (RequiredNumbers: Has) *)
+Theorem C36_names_numbers_spec :
+  (forall l s, names_has l s = true <-> In s l) /\
+  (forall l, names_check_dup l = false <-> NoDup l) /\
+  (forall l n, numbers_has l n = true <-> In n l).
+Proof. exact (conj names_has_iff (conj names_check_dup_false numbers_has_iff)). Qed.
+Print Assumptions C36_names_numbers_spec.
 
 (* ================= index, full name, required numbers, oneof links ================= *)
 
@@ -198,11 +179,19 @@ Theorem C36_get_index : forall parent fps onames m, build_message parent fps ona
 Proof. exact build_get_index. Qed.
 Print Assumptions C36_get_index.
 
-(* strs.Builder.AppendFullName is the join; every field / oneof full name is parent joined with name *)
-Theorem C36_fullname_join : forall prefix name, append_full_name prefix name = join_full_name prefix name.
-Proof. exact append_full_name_join. Qed.
+(* strs.Builder.AppendFullName is the join, and FullName.Name() / FullName.Parent() invert it
+   for a dot-free name *)
+Theorem C36_fullname_join : forall prefix name,
+  append_full_name prefix name = join_full_name prefix name /\
+  (~ In dot name ->
+   fullname_name (append_full_name prefix name) = name /\ fullname_parent (append_full_name prefix name) = prefix).
+Proof.
+  exact (fun prefix name => conj (append_full_name_join prefix name)
+           (fullname_name_parent_join prefix name)).
+Qed.
 Print Assumptions C36_fullname_join.
 
+(* every field / oneof full name is the message's full name joined with the declared name *)
 Theorem C36_fullname_of_children : forall parent fps onames m, build_message parent fps onames = Some m ->
   (forall i f, nth_error (md_fields m) i = Some f ->
      exists p, nth_error fps i = Some p /\ fd_fullname f = join_full_name parent (fp_name p)
@@ -211,12 +200,6 @@ Theorem C36_fullname_of_children : forall parent fps onames m, build_message par
      exists s, nth_error onames k = Some s /\ od_fullname o = join_full_name parent s).
 Proof. exact build_fullname. Qed.
 Print Assumptions C36_fullname_of_children.
-
-(* FullName.Name() and FullName.Parent() invert the join for a dot-free name *)
-Theorem C36_fullname_name_parent : forall p n, ~ In dot n -> (p = [] -> n <> []) ->
-  fullname_name (append_full_name p n) = n /\ fullname_parent (append_full_name p n) = p.
-Proof. exact fullname_name_parent_join. Qed.
-Print Assumptions C36_fullname_name_parent.
 
 (* RequiredNumbers = the numbers of exactly the required fields, in declaration order *)
 Theorem C36_required_numbers_exact : forall parent fps onames m, build_message parent fps onames = Some m ->
